@@ -267,3 +267,780 @@ def gen_auth(rng, n_records, sweep_stride=1, kts=KT_ALL):
         steps.append({"op": "decode", "kts": kts, "input": {"raw": b}, "tag": "random"})
     out.append({"sid": sid(), "steps": steps})
     return out
+
+
+# ---------------------------------------------------------------- C02: structural mutations, re-signed
+def valid_rich_record(rng, signer=None):
+    """valid record with many reserved keys and custom values"""
+    rec = rand_record(rng, signer=signer)
+    return rec
+
+
+def flat(rec):
+    """item list in record order: [seq, k, v, k, v ...] as ITEM specs; values verbatim"""
+    return items_of(rec)
+
+
+def struct_mutations(rng, rec):
+    """yield (tag, recspec) : each violates (at most) one structural rule and is signed over the mutated content"""
+    by = rec["by"]
+    sch = scheme_of(by)
+    pkk = B(pk_key(by))
+    pairs = rec["pairs"]
+    seq = rec["seq"]
+
+    def mk(items, **kw):
+        r = {"items": items, "sig": {"by": by}}
+        r.update(kw)
+        return {"rec": r}
+
+    def with_pairs(ps, seq_item=None):
+        it = [seq_item if seq_item is not None else {"s": seq}]
+        for k, v in ps:
+            it.append(k if isinstance(k, dict) else {"s": k})
+            it.append(v if isinstance(v, dict) else {"x": v})
+        return it
+
+    out = []
+    base = with_pairs(pairs)
+    out.append(("valid", mk(base)))
+    # ordering
+    if len(pairs) >= 2:
+        j = rng.randrange(len(pairs) - 1)
+        sw = pairs[:j] + [pairs[j + 1], pairs[j]] + pairs[j + 2:]
+        out.append(("unsorted_swap", mk(with_pairs(sw))))
+        rv = list(reversed(pairs))
+        out.append(("unsorted_reversed", mk(with_pairs(rv))))
+    j = rng.randrange(len(pairs))
+    dup = pairs[:j + 1] + [pairs[j]] + pairs[j + 1:]
+    out.append(("duplicate_key", mk(with_pairs(dup))))
+    dup2 = pairs[:j + 1] + [[pairs[j][0], enc_str(rand_bytes(rng, 3))]] + pairs[j + 1:]
+    if bytes(pairs[j][0]) not in (b"id", b"ip", b"ip6", b"tcp", b"tcp6", b"udp", b"udp6", b"secp256k1", b"ed25519"):
+        out.append(("duplicate_key_other_value", mk(with_pairs(dup2))))
+    # missing value / lone key
+    out.append(("missing_last_value", mk(base[:-1])))
+    out.append(("lone_key_appended", mk(base + [{"s": B("zzzz")}])))
+    out.append(("value_without_key_prepended", mk([base[0], {"s": [1, 2]}] + base[1:])))
+    # id
+    noid = [p for p in pairs if bytes(p[0]) != b"id"]
+    out.append(("id_missing", mk(with_pairs(noid))))
+    for tag, v in [("id_v5", enc_str(B("v5"))), ("id_empty", enc_str([])), ("id_V4", enc_str(B("V4"))),
+                   ("id_v4x", enc_str(B("v4x"))), ("id_list", enc_list([enc_str(B("v4"))]))]:
+        out.append((tag, mk(with_pairs([[k, (v if bytes(k) == b"id" else x)] for k, x in pairs]))))
+    # public key
+    nopk = [p for p in pairs if p[0] != pkk]
+    out.append(("pk_missing", mk(with_pairs(nopk))))
+
+    def pk_with(v):
+        return with_pairs([[k, (v if k == pkk else x)] for k, x in pairs])
+
+    if sch == "secp":
+        for tag, v in [("pk_33_zero", enc_str([0] * 33)), ("pk_02_ff", enc_str([2] + [255] * 32)),
+                       ("pk_32_bytes", enc_str(KEYS[by]["pk"][:32])), ("pk_34_bytes", enc_str(KEYS[by]["pk"] + [0])),
+                       ("pk_prefix_04", enc_str([4] + KEYS[by]["pk"][1:])), ("pk_empty", enc_str([])),
+                       ("pk_list", enc_list([enc_str(KEYS[by]["pk"])]))]:
+            out.append((tag, mk(pk_with(v))))
+        # a record that carries only an ed25519 key (signed with the secp key): no key type may accept
+        onlyed = sorted(nopk + [[B("ed25519"), enc_str(KEYS["e1"]["pk"])]], key=lambda p: bytes(p[0]))
+        out.append(("only_other_scheme_key", mk(with_pairs(onlyed))))
+    else:
+        for tag, v in [("pk_31_bytes", enc_str(KEYS[by]["pk"][:31])), ("pk_33_bytes", enc_str(KEYS[by]["pk"] + [0])),
+                       ("pk_empty", enc_str([])), ("pk_list", enc_list([enc_str(KEYS[by]["pk"])]))]:
+            out.append((tag, mk(pk_with(v))))
+    # ill-typed reserved values (added or replaced)
+    def with_kv(k, v):
+        ps = [p for p in pairs if p[0] != B(k)] + [[B(k), v]]
+        return with_pairs(sorted(ps, key=lambda p: bytes(p[0])))
+
+    for tag, k, v in [("ip_3", "ip", enc_str([1, 2, 3])), ("ip_5", "ip", enc_str([1, 2, 3, 4, 5])), ("ip_empty", "ip", enc_str([])),
+                      ("ip_list", "ip", enc_list([enc_str([1, 2, 3, 4])])),
+                      ("ip6_15", "ip6", enc_str([7] * 15)), ("ip6_17", "ip6", enc_str([7] * 17)), ("ip6_4", "ip6", enc_str([1, 2, 3, 4])),
+                      ("port_3_bytes", rng.choice(PORT_KEYS), enc_str([1, 0, 0])),
+                      ("port_leading_zero", rng.choice(PORT_KEYS), [0x82, 0, 80]),
+                      ("port_zero_byte", rng.choice(PORT_KEYS), [0]),
+                      ("port_list", rng.choice(PORT_KEYS), enc_list([enc_uint(80)])),
+                      ("port_noncanon_single", rng.choice(PORT_KEYS), [0x81, 0x50]),
+                      ("port_ok_boundary", rng.choice(PORT_KEYS), enc_uint(rng.choice([0, 1, 127, 128, 255, 256, 65535])))]:
+        out.append((tag, mk(with_kv(k, v))))
+    # non-canonical integers / framing
+    for tag, it in [("seq_leading_zero", {"x": [0x82, 0, 1]}), ("seq_zero_byte", {"x": [0]}), ("seq_9_bytes", {"s": [1] * 9}),
+                    ("seq_list", {"l": [{"s": [1]}]}), ("seq_noncanon_single", {"x": [0x81, 5]}),
+                    ("seq_longform", {"x": [0xb8, 1, 0x90]}), ("seq_8_bytes_max", {"s": [255] * 8}), ("seq_empty", {"s": []})]:
+        out.append((tag, mk(with_pairs(pairs, seq_item=it))))
+    ck = B("zq")
+    for tag, v in [("val_noncanon_single", [0x81, 0x05]), ("val_longform_short", [0xb8, 3, 1, 2, 3]),
+                   ("val_len_leading_zero", [0xb9, 0, 56] + [1] * 56), ("val_list_longform_short", [0xf8, 2, 1, 2]),
+                   ("val_two_items", [1, 2]), ("val_empty_raw", []),
+                   ("val_nested_ok", enc_list([enc_list([enc_str([1, 2])]), enc_str([])])),
+                   ("val_nested_inner_bad", [0xc2, 0x81, 0x05])]:
+        out.append((tag, mk(with_kv("zq", v))))
+    out.append(("key_is_list", mk(base + [{"l": [{"s": B("zz")}]}, {"s": [1]}])))
+    out.append(("key_noncanon_single", mk(base + [{"x": [0x81, 0x7a]}, {"s": [1]}])))
+    out.append(("overrun_last_value", mk(base + [{"s": B("zz")}, {"x": [0x85, 1, 2]}])))
+    out.append(("overrun_key_header", mk(base + [{"x": [0x83, 0x7a]}])))
+    # outer framing
+    out.append(("outer_string_header", mk(base, outer={"str": True})))
+    out.append(("outer_len_minus_1", mk(base, outer={"delta": -1})))
+    out.append(("outer_len_plus_1", mk(base, outer={"delta": 1})))
+    out.append(("outer_noncanon_long", mk(base, outer={"long": True})))
+    out.append(("outer_len_leading_zero", mk(base, outer={"long0": True})))
+    # sizes around the limit
+    for target in [299, 300, 301, 302, 303]:
+        p2 = pad_to(rng, seq, [p for p in pairs if bytes(p[0]) != b"zpad"], target)
+        if p2:
+            out.append(("size_%d" % target, mk(with_pairs(p2))))
+    # tiny lists
+    out.append(("empty_list", {"raw": [0xc0]}))
+    out.append(("sig_only", {"rec": {"items": [], "sig": {"by": by}}}))
+    out.append(("sig_seq_only", mk([{"s": seq}])))
+    out.append(("empty_input", {"raw": []}))
+    return out
+
+
+def gen_struct(rng, n_records, kts=KT_ALL):
+    sid = Sid("struct")
+    out = []
+    for r in range(n_records):
+        rec = valid_rich_record(rng)
+        steps = []
+        for tag, spec in struct_mutations(rng, rec):
+            steps.append({"op": "decode", "kts": kts, "input": spec, "tag": tag})
+        out.append({"sid": sid(), "steps": steps})
+    return out
+
+
+def gen_valid(rng, n, kts=KT_ALL, full_every=4):
+    """valid records, some with the full observation (text forms, typed accessors, re-decodings)"""
+    sid = Sid("valid")
+    out = []
+    for i in range(n):
+        rec = rand_record(rng)
+        kt = rng.choice([k for k in kts if scheme_ok(k, rec["by"])])
+        st = {"op": "decode", "h": "r", "kt": kt, "kts": kts, "input": recspec(rec), "tag": "valid"}
+        if i % full_every == 0:
+            st["obs"] = "full"
+        out.append({"sid": sid(), "steps": [st]})
+    return out
+
+
+def scheme_ok(kt, signer):
+    base = kt[1:] if kt.startswith("w") else kt
+    if base in ("k256", "libsecp", "var"):
+        return scheme_of(signer) == "secp"
+    if base == "ed":
+        return scheme_of(signer) == "ed"
+    return True
+
+
+# ---------------------------------------------------------------- C13: suffixes, streams, lists
+def gen_prefix(rng, n, kts=KT_ALL):
+    sid = Sid("prefix")
+    out = []
+    for i in range(n):
+        rec = rand_record(rng)
+        other = rand_record(rng)
+        muts = struct_mutations(rng, rec)
+        steps = []
+        cands = [("valid", recspec(rec))] + [m for m in rng.sample(muts, 6) if "raw" not in m[1]]
+        for tag, spec in cands:
+            for sn in rng.sample([1, 2, 3, 50, 166, 167, 200, 300, 1000], 3):
+                kind = rng.choice(["zeros", "random", "record", "truncated"])
+                if kind == "zeros":
+                    sfx = {"raw": [0] * sn}
+                elif kind == "random":
+                    sfx = {"raw": rand_bytes(rng, sn)}
+                elif kind == "record":
+                    sfx = recspec(other)
+                else:
+                    sfx = {"mut": {"base": recspec(other), "edits": [{"k": "trunc", "n": rng.randrange(1, 60)}]}}
+                steps.append({"op": "decode", "kts": kts, "input": {"concat": [spec, sfx]}, "tag": "sfx_%s_%s" % (kind, tag)})
+        out.append({"sid": sid(), "steps": steps})
+        # streams and lists
+        steps = []
+        for kt in kts:
+            sigs = [s for s in SECP_SIGNERS + ED_SIGNERS if scheme_ok(kt, s)]
+            k = rng.randrange(1, 9)
+            recs = [rand_record(rng, signer=rng.choice(sigs)) for _ in range(k)]
+            # keep the list under a few hundred bytes per record; total may exceed 300 (that is the point)
+            specs = [recspec(r) for r in recs]
+            steps.append({"op": "decode_stream", "kt": kt, "input": {"concat": specs}, "tag": "stream_valid_%d" % k})
+            steps.append({"op": "decode_list", "kt": kt, "input": {"list": specs}, "tag": "list_valid_%d" % k})
+            # one invalid record at a random position
+            j = rng.randrange(k)
+            bad = list(specs)
+            tag, m = rng.choice([m for m in struct_mutations(rng, recs[j]) if m[0] not in ("valid", "port_ok_boundary", "seq_8_bytes_max", "seq_empty", "val_nested_ok", "size_299", "size_300", "empty_input")])
+            bad[j] = m
+            steps.append({"op": "decode_stream", "kt": kt, "input": {"concat": bad}, "tag": "stream_bad_%s" % tag})
+            steps.append({"op": "decode_list", "kt": kt, "input": {"list": bad}, "tag": "list_bad_%s" % tag})
+            # trailing garbage after a list / a stream
+            steps.append({"op": "decode_list", "kt": kt, "input": {"concat": [{"list": specs[:2]}, {"raw": rand_bytes(rng, 5)}]}, "tag": "list_suffix"})
+        out.append({"sid": sid(), "steps": steps})
+    return out
+
+
+# ---------------------------------------------------------------- C12: text and JSON forms
+def cps(s):
+    return [ord(c) for c in s]
+
+
+def gen_text(rng, n, kts=KT_ALL):
+    sid = Sid("text")
+    out = []
+    for i in range(n):
+        rec = rand_record(rng)
+        spec = recspec(rec)
+        steps = []
+        kt = rng.choice([k for k in kts if scheme_ok(k, rec["by"])])
+        steps.append({"op": "decode", "h": "r", "kt": kt, "input": spec, "obs": "full", "tag": "text_base"})
+
+        def t(tag, **kw):
+            d = {"b64": spec}
+            d.update(kw)
+            steps.append({"op": "from_str", "kts": kts, "text": d, "tag": tag})
+
+        t("canonical", prefix=cps("enr:"))
+        t("no_prefix")
+        for p in ["ENR:", "Enr:", "enr", "enr:enr:", "enr: ", " enr:", "enr;", "nr:", "e"]:
+            t("prefix_" + p.strip() + "_", prefix=cps(p))
+        t("std_alphabet", prefix=cps("enr:"), std=True)
+        t("pad1", prefix=cps("enr:"), pad=1)
+        t("pad2", prefix=cps("enr:"), pad=2)
+        t("pad3", prefix=cps("enr:"), pad=3)
+        for ch in ["A", "=", " ", "\n", "+", "/", "-", "é", "\t", "\u0000", "."]:
+            t("append_%04x" % ord(ch), prefix=cps("enr:"), suffix=cps(ch))
+            t("insert_%04x" % ord(ch), prefix=cps("enr:"), ins={"at": rng.randrange(0, 200), "cp": ord(ch)})
+        for tb in range(1, 16):
+            t("trailing_bits_%d" % tb, prefix=cps("enr:"), tb=tb)
+        # bytes appended to the encoded record before base64-encoding
+        for nb in [1, 2, 3, 4, 7, 30]:
+            if rec_len(rec["seq"], rec["pairs"]) + nb <= 300 or True:
+                steps.append({"op": "from_str", "kts": kts, "tag": "trailing_bytes_%d" % nb,
+                              "text": {"b64": {"concat": [spec, {"raw": rand_bytes(rng, nb)}]}, "prefix": cps("enr:")}})
+        # a truncated record
+        steps.append({"op": "from_str", "kts": kts, "tag": "truncated",
+                      "text": {"b64": {"mut": {"base": spec, "edits": [{"k": "trunc", "n": rng.randrange(1, 100)}]}}, "prefix": cps("enr:")}})
+        # JSON documents
+        steps.append({"op": "from_json", "kts": kts, "quote": True, "text": {"b64": spec, "prefix": cps("enr:")}, "tag": "json_canonical"})
+        steps.append({"op": "from_json", "kts": kts, "quote": True, "text": {"b64": spec}, "tag": "json_no_prefix"})
+        steps.append({"op": "from_json", "kts": kts, "quote": True, "text": {"b64": spec, "prefix": cps("enr:"), "suffix": cps("=")}, "tag": "json_pad"})
+        steps.append({"op": "from_json", "kts": kts, "quote": True, "text": {"b64": spec, "prefix": cps("enr:"), "suffix": cps("\n")}, "tag": "json_newline"})
+        steps.append({"op": "from_json", "kts": kts, "text": {"chars": cps("12345")}, "tag": "json_number"})
+        steps.append({"op": "from_json", "kts": kts, "text": {"chars": cps("null")}, "tag": "json_null"})
+        steps.append({"op": "from_json", "kts": kts, "text": {"chars": cps('["enr:AAAA"]')}, "tag": "json_array"})
+        out.append({"sid": sid(), "steps": steps})
+    # unstructured strings
+    steps = []
+    for _ in range(30 * max(1, n // 4)):
+        ln = rng.choice([0, 1, 2, 3, 4, 5, 8, 40, 200, 500])
+        alphabet = rng.choice(["ABCDEFabcdef0123456789-_", "enr:AQ-_=", "".join(chr(c) for c in range(32, 127)), "é中A-"])
+        s = "".join(rng.choice(alphabet) for _ in range(ln))
+        if rng.random() < 0.5:
+            s = "enr:" + s
+        steps.append({"op": "from_str", "kts": kts, "text": {"chars": cps(s)}, "tag": "random_text"})
+        steps.append({"op": "from_json", "kts": kts, "quote": True, "text": {"chars": cps(s)}, "tag": "random_json"})
+    out.append({"sid": sid(), "steps": steps})
+    return out
+
+
+# ---------------------------------------------------------------- histories (C03, C05..C10, C15)
+BAD_RAW = [[], [0x83, 1], [1, 2], [0x81, 5], [0xb8, 3, 1, 2, 3], [0xc1], [0xc3, 1], [0x80, 0x80], [0xf8, 2, 1, 2], [0x00],
+           [0x82, 0, 1], [0xc2, 0x81, 5]]
+
+
+def rand_typed(rng):
+    r = rng.random()
+    if r < 0.4:
+        return {"ty": "bytes", "v": rand_bytes(rng, rng.choice([0, 1, 1, 2, 4, 8, 16, 33, 56, 60]))}
+    if r < 0.55:
+        return {"ty": "u64", "v": rand_seq(rng)}
+    if r < 0.65:
+        return {"ty": "u16", "v": rng.choice([0, 1, 127, 128, 255, 256, 65535, rng.randrange(65536)])}
+    if r < 0.8:
+        return {"ty": "list", "v": [rand_bytes(rng, rng.choice([0, 1, 2, 5])) for _ in range(rng.randrange(0, 4))]}
+    if r < 0.9:
+        return {"ty": "str", "v": B(rng.choice(["", "a", "hello", "v4", "Nethermind"]))}
+    return rng.choice([{"ty": "ip4", "v": rand_bytes(rng, 4)}, {"ty": "ip6", "v": rand_bytes(rng, 16)}])
+
+
+def reserved_typed(rng, key):
+    """a typed value for a reserved key: well-typed most of the time, ill-typed otherwise"""
+    good = rng.random() < 0.6
+    if key == "id":
+        return {"ty": "bytes", "v": B("v4") if good else B(rng.choice(["v5", "", "v4 ", "V4"]))}
+    if key == "ip":
+        return {"ty": "bytes", "v": rand_bytes(rng, 4 if good else rng.choice([0, 3, 5, 16]))}
+    if key == "ip6":
+        return {"ty": "bytes", "v": rand_bytes(rng, 16 if good else rng.choice([0, 4, 15, 17]))}
+    if key in PORT_KEYS:
+        if good:
+            return {"ty": "u16", "v": rng.randrange(65536)}
+        return rng.choice([{"ty": "bytes", "v": [1, 0, 0]}, {"ty": "bytes", "v": [0, 80]}, {"ty": "u64", "v": [1, 0, 0]},
+                           {"ty": "list", "v": [[80]]}, {"ty": "bytes", "v": [0]}])
+    # public-key keys
+    return {"ty": "bytes", "v": rand_bytes(rng, rng.choice([0, 32, 33]))}
+
+
+def rand_call(rng, kt, own, others, hard=True):
+    """one random mutator call. own: the record's current signer name; others: other signers of the same scheme"""
+    signer = own if (rng.random() < 0.85 or not others) else rng.choice(others)
+    r = rng.random()
+    c = {"op": "call", "h": "r", "signer": signer}
+    fam = rng.choice(["set_seq", "insert", "insert", "insert_raw", "insert_raw", "typed_set", "typed_set", "remove_typed", "client",
+                      "socket", "remove_socket", "remove_key", "remove_insert", "remove_insert", "set_public_key"])
+    if fam == "set_seq":
+        c.update(m="set_seq", args={"seq": rng.choice(SEQ_BOUNDARY + [rand_seq(rng)])})
+    elif fam == "insert":
+        if rng.random() < 0.45:
+            k = rng.choice(RESERVED)
+            c.update(m="insert", args={"key": B(k), "val": reserved_typed(rng, k)})
+        else:
+            c.update(m="insert", args={"key": rand_custom_key(rng), "val": rand_typed(rng)})
+    elif fam == "insert_raw":
+        if rng.random() < 0.4:
+            k = B(rng.choice(RESERVED))
+        else:
+            k = rand_custom_key(rng)
+        rr = rng.random()
+        if rr < 0.5:
+            raw = rand_value_raw(rng)
+        elif rr < 0.8 and hard:
+            raw = list(rng.choice(BAD_RAW))
+        else:
+            raw = rng.choice([enc_str(B("v4")), enc_uint(rng.randrange(65536)), enc_str(rand_bytes(rng, 4)), enc_str(rand_bytes(rng, 16)),
+                              enc_str(KEYS[signer]["pk"]), enc_str(rand_bytes(rng, 33))])
+        c.update(m="insert_raw_rlp", args={"key": k, "raw": raw})
+    elif fam == "typed_set":
+        m = rng.choice(["set_ip", "set_ip", "set_udp4", "set_udp6", "set_tcp4", "set_tcp6"])
+        if m == "set_ip":
+            c.update(m=m, args={"ip": rand_bytes(rng, rng.choice([4, 16]))})
+        else:
+            c.update(m=m, args={"port": rng.choice([0, 1, 80, 127, 128, 255, 256, 30303, 65535, rng.randrange(65536)])})
+    elif fam == "remove_typed":
+        c.update(m=rng.choice(["remove_udp4", "remove_udp6", "remove_tcp", "remove_tcp6"]), args={})
+    elif fam == "client":
+        names = ["Nethermind", "geth", "", "x" * rng.choice([1, 30, 56]), "lighthouse"]
+        c.update(m="set_client_info", args={"name": B(rng.choice(names)), "version": B(rng.choice(["1.0", "", "v1.9.0-rc2"])),
+                                            "build": rng.choice([[], [B("7d04d5a")], [B("")]])})
+    elif fam == "socket":
+        c.update(m=rng.choice(["set_udp_socket", "set_tcp_socket"]),
+                 args={"ip": rand_bytes(rng, rng.choice([4, 16])), "port": rng.choice([0, 1, 255, 256, 65535, rng.randrange(65536)])})
+    elif fam == "remove_socket":
+        c.update(m=rng.choice(["remove_udp_socket", "remove_udp6_socket", "remove_tcp_socket", "remove_tcp6_socket"]), args={})
+    elif fam == "remove_key":
+        k = rng.choice([B(x) for x in RESERVED] + [rand_custom_key(rng) for _ in range(6)])
+        c.update(m="remove_key", args={"key": k})
+    elif fam == "remove_insert":
+        rm = [rng.choice([B(x) for x in RESERVED[1:]] + [rand_custom_key(rng) for _ in range(5)]) for _ in range(rng.randrange(0, 4))]
+        ins = []
+        for _ in range(rng.randrange(0, 4)):
+            if rng.random() < 0.4 and hard:
+                k = rng.choice(RESERVED)
+                v = reserved_typed(rng, k)
+                payload = v["v"] if v["ty"] in ("bytes", "str") else (be(v["v"]) if v["ty"] == "u16" else [1])
+                ins.append([B(k), payload])
+            else:
+                ins.append([rand_custom_key(rng), rand_bytes(rng, rng.choice([0, 1, 3, 20]))])
+        c.update(m="remove_insert", args={"remove": rm, "insert": ins})
+    else:
+        c.update(m="set_public_key", args={"pk_of": rng.choice([own] + others) if rng.random() < 0.5 else own})
+    return c, signer
+
+
+def builder_calls(rng, hard=True):
+    calls = []
+    if rng.random() < 0.6:
+        calls.append({"m": "seq", "seq": rng.choice(SEQ_BOUNDARY + [rand_seq(rng)])})
+    for _ in range(rng.randrange(0, 6)):
+        m = rng.choice(["ip", "ip4", "ip6", "tcp4", "tcp6", "udp4", "udp6", "client_info", "add_value", "add_value", "add_value_rlp", "add_value_rlp"])
+        if m == "ip":
+            calls.append({"m": m, "ip": rand_bytes(rng, rng.choice([4, 16]))})
+        elif m == "ip4":
+            calls.append({"m": m, "ip": rand_bytes(rng, 4)})
+        elif m == "ip6":
+            calls.append({"m": m, "ip": rand_bytes(rng, 16)})
+        elif m in ("tcp4", "tcp6", "udp4", "udp6"):
+            calls.append({"m": m, "port": rng.choice([0, 1, 255, 256, 65535, rng.randrange(65536)])})
+        elif m == "client_info":
+            calls.append({"m": m, "name": B(rng.choice(["geth", "", "Nethermind"])), "version": B("1.2"), "build": rng.choice([[], [B("abc")]])})
+        elif m == "add_value":
+            if rng.random() < 0.3 and hard:
+                k = rng.choice(RESERVED)
+                calls.append({"m": m, "key": B(k), "val": reserved_typed(rng, k)})
+            else:
+                calls.append({"m": m, "key": rand_custom_key(rng), "val": rand_typed(rng)})
+        else:
+            k = B(rng.choice(RESERVED)) if (rng.random() < 0.3 and hard) else rand_custom_key(rng)
+            raw = list(rng.choice(BAD_RAW)) if (rng.random() < 0.3 and hard) else rand_value_raw(rng)
+            calls.append({"m": m, "key": k, "raw": raw})
+    return calls
+
+
+HIST_KTS = ["k256", "libsecp", "ed", "comb", "wk256", "wed", "wcomb", "var"]
+
+
+def gen_hist(rng, n, length=(8, 30), kts=HIST_KTS, full_every=5, faults=True, hard=True):
+    """random histories: construct (builder or decode of an independently signed record), then updates"""
+    sid = Sid("hist")
+    out = []
+    for i in range(n):
+        kt = kts[i % len(kts)]
+        sigs = signers_for(kt)
+        own = rng.choice(sigs)
+        sch = scheme_of(own)
+        same = [s for s in sigs if scheme_of(s) == sch and s != own]
+        steps = []
+        if rng.random() < 0.5:
+            steps.append({"op": "build", "h": "r", "kt": kt, "signer": own, "calls": builder_calls(rng, hard)})
+            # make sure there is a record to work on
+            steps.append({"op": "build", "h": "r", "kt": kt, "signer": own, "calls": [{"m": "udp4", "port": 9000}], "ifmissing": True})
+        else:
+            rec = rand_record(rng, signer=own)
+            if kt == "var":
+                # VarKey records carry padded signatures: build through the library instead
+                steps.append({"op": "build", "h": "r", "kt": kt, "signer": own, "calls": [{"m": "seq", "seq": rec["seq"]}] + builder_calls(rng, False)})
+            else:
+                steps.append({"op": "decode", "h": "r", "kt": kt, "input": recspec(rec), "tag": "hist_init"})
+        ln = rng.randrange(*length)
+        traced = kt.startswith("w") or kt == "var"
+        for j in range(ln):
+            c, signer = rand_call(rng, kt, own, same, hard)
+            if traced and faults and rng.random() < 0.15:
+                c["fault"] = rng.choice([1, 1, 1, 2])
+            if (i * 31 + j) % full_every == 0:
+                c["obs"] = "full"
+            steps.append(c)
+            # re-keying is expected to take effect on success; the generator follows the signer used most recently
+            # (the specification tracks the real state; this only steers later choices)
+            if signer != own and rng.random() < 0.5:
+                same = [s for s in same if s != signer] + [own]
+                own = signer
+            if rng.random() < 0.12:
+                steps.append({"op": "clone", "h": "c", "from": "r"})
+                steps.append({"op": "compare", "a": "r", "b": "c"})
+            elif rng.random() < 0.1 and any(s.get("h") == "c" for s in steps):
+                steps.append({"op": "compare", "a": "r", "b": "c"})
+        out.append({"sid": sid(), "steps": steps})
+    return out
+
+
+# ---------------------------------------------------------------- C16: NodeId
+def gen_nodeid(rng, n_random):
+    sid = Sid("nodeid")
+    steps = []
+    pats = [[0] * 32, [255] * 32, list(range(32)), list(range(224, 256)), [1] + [0] * 31, [0] * 31 + [1], [0x80] * 32, [0x0a, 0xbc] * 16]
+    for _ in range(n_random):
+        pats.append(rand_bytes(rng, 32))
+    for p in pats:
+        steps.append({"op": "nodeid", "kind": "new", "bytes": p, "tag": "new"})
+        steps.append({"op": "nodeid", "kind": "parse", "bytes": p, "tag": "parse32"})
+    for ln in range(0, 65):
+        steps.append({"op": "nodeid", "kind": "parse", "bytes": rand_bytes(rng, ln), "tag": "parse_len"})
+        steps.append({"op": "nodeid", "kind": "parse", "bytes": [1] * ln, "tag": "parse_len"})
+    hexd = "0123456789abcdef"
+    for ln in range(0, 71):
+        for pref in ["", "0x", "0X", "0x0x", "x0"]:
+            for case in ["lower", "upper", "mixed"]:
+                s = "".join(rng.choice(hexd) for _ in range(ln))
+                if case == "upper":
+                    s = s.upper()
+                elif case == "mixed":
+                    s = "".join(c.upper() if rng.random() < 0.5 else c for c in s)
+                steps.append({"op": "nodeid", "kind": "json", "text": cps('"' + pref + s + '"'), "tag": "json_len_%s" % case})
+    for _ in range(40 + n_random):
+        s = [rng.choice(hexd) for _ in range(64)]
+        pos = rng.choice([0, 1, 31, 32, 62, 63, rng.randrange(64)])
+        s[pos] = rng.choice("gGzZ -_+/xé \n.")
+        for pref in ["", "0x"]:
+            steps.append({"op": "nodeid", "kind": "json", "text": cps('"' + pref + "".join(s) + '"'), "tag": "json_nonhex"})
+    for doc in ['""', '"0x"', 'null', '123', '[]', '{}', '"0x' + "ab" * 32 + '" ', ' "' + "cd" * 32 + '"', '"\\u0030x' + "ab" * 32 + '"',
+                '"0x' + "ab" * 32 + '"x', '"' + "AB" * 32 + '"', '"0x' + "Ab" * 32 + '"', '"0x' + "ab" * 31 + 'a"', '"0x' + "ab" * 32 + 'a"']:
+        steps.append({"op": "nodeid", "kind": "json", "text": cps(doc), "tag": "json_doc"})
+    return [{"sid": sid(), "steps": steps}]
+
+
+# ---------------------------------------------------------------- C17: CombinedKey secret import / export
+def gen_keys(rng, n_random):
+    sid = Sid("keys")
+    N = 0xFFFFFFFFFFFFFFFFFFFFFFFFFFFFFFFEBAAEDCE6AF48A03BBFD25E8CD0364141
+    steps = []
+    vals = [0, 1, 2, 3, N - 2, N - 1, N, N + 1, N + 2, 2 ** 255, 2 ** 256 - 1, 2 ** 256 - 2, N // 2, N // 2 + 1, 2 ** 128, 2 ** 248]
+    for v in vals:
+        b = list(v.to_bytes(32, "big"))
+        steps.append({"op": "key_import", "scheme": "secp", "bytes": b, "tag": "boundary"})
+        steps.append({"op": "key_import", "scheme": "ed", "bytes": b, "tag": "boundary"})
+    # single-byte perturbations around n
+    nb = list(N.to_bytes(32, "big"))
+    for i in range(32):
+        for d in (-1, 1):
+            b = list(nb)
+            b[i] = (b[i] + d) % 256
+            steps.append({"op": "key_import", "scheme": "secp", "bytes": b, "tag": "perturb_n"})
+    for _ in range(n_random):
+        b = rand_bytes(rng, 32)
+        steps.append({"op": "key_import", "scheme": "secp", "bytes": b, "tag": "random"})
+        steps.append({"op": "key_import", "scheme": "ed", "bytes": b, "tag": "random"})
+    for ln in list(range(0, 32)) + list(range(33, 66)):
+        steps.append({"op": "key_import", "scheme": "ed", "bytes": rand_bytes(rng, ln), "tag": "ed_len"})
+        steps.append({"op": "key_import", "scheme": "secp", "bytes": rand_bytes(rng, ln), "tag": "secp_len"})
+    return [{"sid": sid(), "steps": steps}]
+
+
+# ---------------------------------------------------------------- C07: sequence numbers
+ALL_SIMPLE_CALLS = [
+    ("insert", lambda rng: {"key": B("zz"), "val": {"ty": "bytes", "v": [1, 2, 3]}}),
+    ("insert_raw_rlp", lambda rng: {"key": B("zy"), "raw": enc_str([9, 9])}),
+    ("set_ip", lambda rng: {"ip": rand_bytes(rng, 4)}),
+    ("set_ip", lambda rng: {"ip": rand_bytes(rng, 16)}),
+    ("set_udp4", lambda rng: {"port": rng.randrange(65536)}),
+    ("set_udp6", lambda rng: {"port": rng.randrange(65536)}),
+    ("set_tcp4", lambda rng: {"port": rng.randrange(65536)}),
+    ("set_tcp6", lambda rng: {"port": rng.randrange(65536)}),
+    ("remove_udp4", lambda rng: {}), ("remove_udp6", lambda rng: {}), ("remove_tcp", lambda rng: {}), ("remove_tcp6", lambda rng: {}),
+    ("set_client_info", lambda rng: {"name": B("geth"), "version": B("1.0"), "build": []}),
+    ("set_udp_socket", lambda rng: {"ip": rand_bytes(rng, 4), "port": 30303}),
+    ("set_udp_socket", lambda rng: {"ip": rand_bytes(rng, 16), "port": 30303}),
+    ("set_tcp_socket", lambda rng: {"ip": rand_bytes(rng, 4), "port": 80}),
+    ("set_tcp_socket", lambda rng: {"ip": rand_bytes(rng, 16), "port": 80}),
+    ("remove_udp_socket", lambda rng: {}), ("remove_udp6_socket", lambda rng: {}),
+    ("remove_tcp_socket", lambda rng: {}), ("remove_tcp6_socket", lambda rng: {}),
+    ("remove_key", lambda rng: {"key": B("udp")}),
+    ("remove_key", lambda rng: {"key": B("absent")}),
+    ("remove_insert", lambda rng: {"remove": [B("udp"), B("tcp")], "insert": [[B("ip"), [10, 0, 0, 1]], [B("udp"), [0x76, 0x5f]], [B("q"), [7]]]}),
+    ("remove_insert", lambda rng: {"remove": [], "insert": []}),
+    ("set_public_key", lambda rng: {"pk_of": "OWN"}),
+]
+
+
+def gen_seq(rng, kts=("k256", "libsecp", "ed", "comb"), seqs=None, calls_per=None):
+    sid = Sid("seq")
+    out = []
+    seqs = seqs or SEQ_BOUNDARY + [[0x7f, 0xff], [0xff, 0xff, 0xff], [1, 0, 0, 0], [255] * 5, [1] + [0] * 5, [255] * 6, [1] + [0] * 6, [1] + [0] * 7]
+    for kt in kts:
+        own = signers_for(kt)[0]
+        for seq in seqs:
+            steps = []
+            pairs = rand_pairs(rng, own, max_custom=1)
+            calls = ALL_SIMPLE_CALLS if calls_per is None else rng.sample(ALL_SIMPLE_CALLS, calls_per)
+            for m, af in calls:
+                args = af(rng)
+                if args.get("pk_of") == "OWN":
+                    args["pk_of"] = own
+                steps.append({"op": "decode", "h": "r", "kt": kt, "input": {"rec": {"seq": seq, "pairs": pairs, "sig": {"by": own}}}, "tag": "seq_init"})
+                steps.append({"op": "call", "h": "r", "m": m, "args": args, "signer": own})
+            # set_seq to every boundary from here
+            for s2 in rng.sample(SEQ_BOUNDARY, 4):
+                steps.append({"op": "call", "h": "r", "m": "set_seq", "args": {"seq": s2}, "signer": own})
+            out.append({"sid": sid(), "steps": steps})
+        # builder -> encode -> decode with random 64-bit sequence numbers
+        steps = []
+        for _ in range(24):
+            steps.append({"op": "build", "h": "b", "kt": kt, "signer": own, "obs": "full", "calls": [{"m": "seq", "seq": rand_seq(rng)}, {"m": "udp4", "port": 1}]})
+        out.append({"sid": sid(), "steps": steps})
+    return out
+
+
+# ---------------------------------------------------------------- C09: the 300-byte limit
+def gen_size(rng, kts=("k256", "libsecp", "ed", "comb"), sizes=range(262, 301), seqs=None, per_size=6):
+    """pre-states of every size in `sizes` (filler value), sequence numbers whose encoding grows on increment,
+    then one update whose result lands in 280..320"""
+    sid = Sid("size")
+    seqs = seqs or [[126], [127], [255], [255, 255], [255, 255, 255], [1], [255] * 4, [255] * 7]
+    growers = [
+        ("set_tcp4", lambda rng: {"port": rng.choice([1, 255, 256, 65535])}),
+        ("set_udp6", lambda rng: {"port": rng.choice([0, 127, 128, 65535])}),
+        ("set_ip", lambda rng: {"ip": rand_bytes(rng, 4)}),
+        ("set_ip", lambda rng: {"ip": rand_bytes(rng, 16)}),
+        ("insert", lambda rng: {"key": B("y"), "val": {"ty": "bytes", "v": rand_bytes(rng, rng.randrange(0, 40))}}),
+        ("insert_raw_rlp", lambda rng: {"key": B("yy"), "raw": enc_str(rand_bytes(rng, rng.randrange(0, 30)))}),
+        ("set_udp_socket", lambda rng: {"ip": rand_bytes(rng, rng.choice([4, 16])), "port": rng.choice([1, 65535])}),
+        ("set_tcp_socket", lambda rng: {"ip": rand_bytes(rng, rng.choice([4, 16])), "port": rng.choice([1, 65535])}),
+        ("set_client_info", lambda rng: {"name": B("n" * rng.randrange(0, 12)), "version": B("1"), "build": rng.choice([[], [B("b")]])}),
+        ("remove_insert", lambda rng: {"remove": [B("zpad")] if rng.random() < 0.3 else [], "insert": [[B("w"), rand_bytes(rng, rng.randrange(0, 30))]]}),
+        ("remove_key", lambda rng: {"key": B("nothing")}),
+        ("remove_udp4", lambda rng: {}),
+        ("set_seq", lambda rng: {"seq": rng.choice([[255] * 8, [1, 0], [255], [1] + [0] * 7, [1]])}),
+        ("set_public_key", lambda rng: {"pk_of": "OWN"}),
+    ]
+    out = []
+    for kt in kts:
+        own = signers_for(kt)[0]
+        base_pairs = [[B("id"), enc_str(B("v4"))], [B(pk_key(own)), enc_str(KEYS[own]["pk"])]]
+        base_pairs.sort(key=lambda p: bytes(p[0]))
+        steps = []
+        for size in sizes:
+            for _ in range(per_size):
+                seq = rng.choice(seqs)
+                pairs = pad_to(rng, seq, base_pairs, size)
+                if pairs is None:
+                    continue
+                m, af = rng.choice(growers)
+                args = af(rng)
+                if args.get("pk_of") == "OWN":
+                    args["pk_of"] = own
+                steps.append({"op": "decode", "h": "r", "kt": kt, "input": {"rec": {"seq": seq, "pairs": pairs, "sig": {"by": own}}}, "tag": "size_%d" % size})
+                steps.append({"op": "call", "h": "r", "m": m, "args": args, "signer": own})
+            if len(steps) > 400:
+                out.append({"sid": sid(), "steps": steps})
+                steps = []
+        if steps:
+            out.append({"sid": sid(), "steps": steps})
+        # the builder around the limit: filler sizes so that the built record has 285..310 bytes
+        steps = []
+        for fill in range(150, 200):
+            calls = [{"m": "seq", "seq": rng.choice(seqs)}, {"m": "add_value", "key": B("zpad"), "val": {"ty": "bytes", "v": [0xAA] * fill}}]
+            steps.append({"op": "build", "h": "b", "kt": kt, "signer": own, "calls": calls})
+        out.append({"sid": sid(), "steps": steps})
+    # variable-length signatures: upper bound and size() only
+    steps = []
+    for fill in range(100, 200, 2):
+        steps.append({"op": "build", "h": "v", "kt": "var", "signer": "k1", "calls": [{"m": "add_value", "key": B("zpad"), "val": {"ty": "bytes", "v": [0xAA] * fill}}]})
+        steps.append({"op": "call", "h": "v", "m": "set_udp4", "args": {"port": rng.randrange(65536)}, "signer": "k1"})
+        steps.append({"op": "call", "h": "v", "m": "insert", "args": {"key": B("q"), "val": {"ty": "bytes", "v": rand_bytes(rng, rng.randrange(0, 30))}}, "signer": "k1"})
+        steps.append({"op": "call", "h": "v", "m": "set_seq", "args": {"seq": rand_seq(rng)}, "signer": "k1"})
+    out.append({"sid": sid(), "steps": steps})
+    return out
+
+
+# ---------------------------------------------------------------- C14: typed accessors
+def gen_typed(rng, ports, routes=("builder", "setter", "socket", "decode"), keys=PORT_KEYS, kts=("k256",), extra=40):
+    sid = Sid("typed")
+    out = []
+    setter = {"tcp": "set_tcp4", "tcp6": "set_tcp6", "udp": "set_udp4", "udp6": "set_udp6"}
+    bmeth = {"tcp": "tcp4", "tcp6": "tcp6", "udp": "udp4", "udp6": "udp6"}
+    for kt in kts:
+        own = signers_for(kt)[0]
+        for key in keys:
+            for route in routes:
+                steps = [{"op": "build", "h": "r", "kt": kt, "signer": own, "calls": [{"m": "ip4", "ip": [10, 0, 0, 1]}, {"m": "ip6", "ip": [0] * 15 + [1]}]}]
+                for p in ports:
+                    if route == "builder":
+                        steps.append({"op": "build", "h": "b", "kt": kt, "signer": own, "obs": "typed", "calls": [{"m": bmeth[key], "port": p}]})
+                    elif route == "setter":
+                        steps.append({"op": "call", "h": "r", "m": setter[key], "args": {"port": p}, "signer": own, "obs": "typed"})
+                    elif route == "socket":
+                        m = "set_tcp_socket" if key.startswith("tcp") else "set_udp_socket"
+                        ip = [10, 0, 0, 2] if not key.endswith("6") else [0xfe, 0x80] + [0] * 13 + [2]
+                        steps.append({"op": "call", "h": "r", "m": m, "args": {"ip": ip, "port": p}, "signer": own, "obs": "typed"})
+                    else:
+                        pairs = sorted([[B("id"), enc_str(B("v4"))], [B(pk_key(own)), enc_str(KEYS[own]["pk"])], [B(key), enc_uint(p)]], key=lambda x: bytes(x[0]))
+                        steps.append({"op": "decode", "h": "d", "kt": kt, "obs": "typed", "input": {"rec": {"seq": [1], "pairs": pairs, "sig": {"by": own}}}, "tag": "port_decode"})
+                    if len(steps) >= 2000:
+                        out.append({"sid": sid(), "steps": steps})
+                        steps = [{"op": "build", "h": "r", "kt": kt, "signer": own, "calls": []}]
+                out.append({"sid": sid(), "steps": steps})
+    # presence combinations of the six address/port keys, with typed and arbitrary raw values
+    kt = kts[0]
+    own = signers_for(kt)[0]
+    six = ["ip", "ip6", "tcp", "tcp6", "udp", "udp6"]
+    steps = []
+    for mask in range(64):
+        pairs = [[B("id"), enc_str(B("v4"))], [B(pk_key(own)), enc_str(KEYS[own]["pk"])]]
+        for b, k in enumerate(six):
+            if mask >> b & 1:
+                v = enc_str(rand_bytes(rng, 4)) if k == "ip" else enc_str(rand_bytes(rng, 16)) if k == "ip6" else port_raw(rng)
+                pairs.append([B(k), v])
+        pairs.sort(key=lambda x: bytes(x[0]))
+        steps.append({"op": "decode", "h": "d", "kt": kt, "obs": "full", "input": {"rec": {"seq": rand_seq(rng), "pairs": pairs, "sig": {"by": own}}}, "tag": "presence_%d" % mask})
+    out.append({"sid": sid(), "steps": steps})
+    # addresses, client strings, arbitrary raw values under client / custom keys
+    steps = [{"op": "build", "h": "r", "kt": kt, "signer": own, "calls": []}]
+    ips = [[0, 0, 0, 0], [255] * 4, [127, 0, 0, 1], [0] * 16, [255] * 16, [0] * 15 + [1], [0x20, 1, 0xd, 0xb8] + [0] * 12]
+    for _ in range(extra):
+        ips.append(rand_bytes(rng, rng.choice([4, 16])))
+    for ip in ips:
+        steps.append({"op": "call", "h": "r", "m": "set_ip", "args": {"ip": ip}, "signer": own, "obs": "typed"})
+        steps.append({"op": "call", "h": "r", "m": rng.choice(["set_udp_socket", "set_tcp_socket"]), "args": {"ip": rand_bytes(rng, len(ip)), "port": rng.randrange(65536)}, "signer": own, "obs": "typed"})
+    for _ in range(extra):
+        nm = "".join(rng.choice("abcXYZ019-._ /é") for _ in range(rng.randrange(0, 12)))
+        steps.append({"op": "call", "h": "r", "m": "set_client_info", "signer": own, "obs": "full",
+                      "args": {"name": B(nm), "version": B(rng.choice(["", "1", "v1.2.3-rc"])), "build": rng.choice([[], [B("x")], [B("")]])}})
+        raw = rng.choice([rand_value_raw(rng), enc_list([enc_str(B("a"))]), enc_list([enc_str(B("a")), enc_str(B("b")), enc_str(B("c")), enc_str(B("d"))]),
+                          enc_list([enc_str(B("a")), enc_list([enc_str(B("b"))])]), enc_str(B("plain")), enc_list([]), enc_list([enc_str([]), enc_str([])])])
+        steps.append({"op": "call", "h": "r", "m": "insert_raw_rlp", "args": {"key": B("client"), "raw": raw}, "signer": own, "obs": "full"})
+        steps.append({"op": "call", "h": "r", "m": "insert_raw_rlp", "args": {"key": rand_custom_key(rng), "raw": rand_value_raw(rng)}, "signer": own, "obs": "full"})
+        steps.append({"op": "call", "h": "r", "m": "insert", "args": {"key": rand_custom_key(rng), "val": rand_typed(rng)}, "signer": own, "obs": "full"})
+        if rng.random() < 0.3:
+            steps.append({"op": "call", "h": "r", "m": "remove_key", "args": {"key": rand_custom_key(rng)}, "signer": own, "obs": "full"})
+    out.append({"sid": sid(), "steps": steps})
+    return out
+
+
+# ---------------------------------------------------------------- C15: equality / hashing / content comparison
+def gen_eq(rng, n, kts=("k256", "libsecp", "ed", "comb")):
+    sid = Sid("eq")
+    out = []
+    for i in range(n):
+        kt = kts[i % len(kts)]
+        sigs = signers_for(kt)
+        own = rng.choice(sigs)
+        other = rng.choice([s for s in sigs if scheme_of(s) == scheme_of(own) and s != own])
+        rec = rand_record(rng, signer=own)
+        while rec_len(rec["seq"], rec["pairs"]) > 280 or rec["seq"] == [255] * 8:
+            rec = rand_record(rng, signer=own)
+        steps = [{"op": "decode", "h": "a", "kt": kt, "input": recspec(rec), "obs": "full", "tag": "eq_base"},
+                 {"op": "clone", "h": "c", "from": "a"},
+                 {"op": "decode", "h": "d", "kt": kt, "input": {"from": "a"}, "tag": "eq_redecode"},
+                 # same content signed again (randomized schemes give another signature)
+                 {"op": "clone", "h": "s", "from": "a"},
+                 {"op": "call", "h": "s", "m": "set_seq", "args": {"seq": rec["seq"]}, "signer": own},
+                 # one-field edits
+                 {"op": "clone", "h": "e1", "from": "a"},
+                 {"op": "call", "h": "e1", "m": "set_udp4", "args": {"port": rng.randrange(65536)}, "signer": own},
+                 {"op": "clone", "h": "e2", "from": "a"},
+                 {"op": "call", "h": "e2", "m": "insert", "args": {"key": B("q"), "val": {"ty": "bytes", "v": [1]}}, "signer": own},
+                 # same content, other sequence number
+                 {"op": "clone", "h": "q", "from": "a"},
+                 {"op": "call", "h": "q", "m": "set_seq", "args": {"seq": rand_seq(rng)}, "signer": own},
+                 # re-keying
+                 {"op": "clone", "h": "k", "from": "a"},
+                 {"op": "call", "h": "k", "m": "set_seq", "args": {"seq": rec["seq"]}, "signer": other},
+                 # an independently signed record with the same content
+                 {"op": "decode", "h": "i", "kt": kt, "input": recspec(rec), "tag": "eq_same_bytes"}]
+        hs = ["a", "c", "d", "s", "e1", "e2", "q", "k", "i"]
+        for x in hs:
+            for y in hs:
+                if x <= y:
+                    steps.append({"op": "compare", "a": x, "b": y})
+        out.append({"sid": sid(), "steps": steps})
+    return out
+
+
+# ---------------------------------------------------------------- C11: cross back-end agreement
+def gen_cross(rng, n):
+    """records built / updated through each back-end, re-decoded under every key type"""
+    sid = Sid("cross")
+    out = []
+    for i in range(n):
+        for kt in KT_ALL:
+            own = rng.choice(signers_for(kt))
+            steps = [{"op": "build", "h": "r", "kt": kt, "signer": own, "calls": builder_calls(rng, hard=False)},
+                     {"op": "decode", "kts": KT_ALL, "input": {"from": "r"}, "tag": "cross_built_" + kt}]
+            for _ in range(4):
+                c, _s = rand_call(rng, kt, own, [], hard=False)
+                steps.append(c)
+                steps.append({"op": "decode", "kts": KT_ALL, "input": {"from": "r"}, "tag": "cross_updated_" + kt})
+            out.append({"sid": sid(), "steps": steps})
+    return out
+
+
+# ---------------------------------------------------------------- C10: node ids of edge-case keys
+def gen_nid(rng, n_random):
+    sid = Sid("nid")
+    N = 0xFFFFFFFFFFFFFFFFFFFFFFFFFFFFFFFEBAAEDCE6AF48A03BBFD25E8CD0364141
+    scal = [1, 2, 3, N - 1, N - 2, 2 ** 255, 2 ** 128, N // 2, N // 2 + 1] + [rng.randrange(1, N) for _ in range(n_random)]
+    out = []
+    steps = []
+    for v in scal:
+        name = "k:" + v.to_bytes(32, "big").hex()
+        for kt in ("k256", "libsecp", "comb"):
+            steps.append({"op": "build", "h": "r", "kt": kt, "signer": name, "calls": [{"m": "udp4", "port": rng.randrange(65536)}]})
+            steps.append({"op": "call", "h": "r", "m": "set_tcp4", "args": {"port": 1}, "signer": name})
+            steps.append({"op": "decode", "kts": KT_ALL, "input": {"from": "r"}, "tag": "nid_edge"})
+    for _ in range(n_random):
+        name = "e:" + bytes(rand_bytes(rng, 32)).hex()
+        for kt in ("ed", "comb"):
+            steps.append({"op": "build", "h": "r", "kt": kt, "signer": name, "calls": [{"m": "udp4", "port": rng.randrange(65536)}]})
+            steps.append({"op": "call", "h": "r", "m": "set_tcp4", "args": {"port": 1}, "signer": name})
+            steps.append({"op": "decode", "kts": KT_ALL, "input": {"from": "r"}, "tag": "nid_edge"})
+    out.append({"sid": sid(), "steps": steps})
+    return out
